@@ -191,6 +191,9 @@ func worldC07(w *World) {
 	w.K.ChaosMult = []int{2, 1, 4}[t.Choice(3, "chaos")]
 	w.K.LatencyMenu = [][]time.Duration{{0}, {0, time.Millisecond, 5 * time.Millisecond}}[t.Choice(2, "latprofile")]
 	shim := t.Choice(2, "shim") == 1
+	if w.ShimChunked = shim && t.Rare(1, 3, "chunked-shim-posts"); w.ShimChunked {
+		w.Probe("shim_posts_without_content_length")
+	}
 	nHealthy := t.Range(2, 8, "healthy")
 	nBad := t.Range(1, 5, "sabotaged")
 	kinds := []string{"reset-before-headers", "reset-mid-body", "close-mid-body", "garbage", "bad-header", "bad-chunk", "hang-then-close"}
